@@ -224,9 +224,17 @@ Definition check_step (k : cst) (o : op) (b : obs) : option cst :=
       if (zlen cards =? zlen req) && forallb (fun c => zmem c avail) req
          && check_lancero cards t mixed order && msgs_ok t nm gm
       then Some (mkC cards (Some (t, "Lancero"%string))) else None
-  | LAgain, ORejCfg => Some (mkC (k_cards k) None)
-  | LAgain, ORej _ _ _ => Some (mkC (k_cards k) None)
-  | LAgain, OAcc t mixed order nm gm =>
+  | LAgain geom, ORejCfg => Some (mkC (k_cards k) None)
+  | LAgain geom, ORej _ _ _ => Some (mkC (regeom (k_cards k) geom) None)
+  | LAgain geom, OAcc t mixed order nm gm =>
+      (* the tables must describe what the cards deliver at THIS start *)
+      let cards := regeom (k_cards k) geom in
+      if check_lancero cards t mixed order && msgs_ok t nm gm
+      then Some (mkC cards (Some (t, "Lancero"%string))) else None
+  | LMid _ _ _ _ _ _, ORejCfg => Some (mkC (k_cards k) None)
+  | LMid _ _ _ _ _ _, ORej _ _ _ => Some (mkC (k_cards k) None)
+  | LMid _ _ _ _ _ _, OAcc t mixed order nm gm =>
+      (* a Configure arriving during the start must not change what this start sets up *)
       if check_lancero (k_cards k) t mixed order && msgs_ok t nm gm
       then Some (mkC (k_cards k) (Some (t, "Lancero"%string))) else None
   | APrep pk, ORej _ _ _ => Some (mkC (k_cards k) None)
@@ -302,7 +310,8 @@ Definition wf_op (o : op) : Prop :=
   match o with
   | LRun avail req nsamp first sepCards sepCols geom =>
       zlen req <= zlen geom /\ Forall (fun g => 0 <= fst g < 65536 /\ 0 <= snd g < 65536) geom
-  | LAgain => True
+  | LAgain geom => Forall (fun g => 0 <= fst g < 65536 /\ 0 <= snd g < 65536) geom
+  | LMid _ _ _ _ _ _ => True
   | APrep pk => Forall (fun p => 1 <= fst p < 65536) pk /\ zlen pk < 65536
   | RPrep devs => 0 <= fold_left Z.add devs 0 < 65536
   | TPrep n => n < 65536
